@@ -1,8 +1,11 @@
 ------------------------------- MODULE Gen_C08 -------------------------------
-EXTENDS ResponseCheck, Json, CSV, SequencesExt
+EXTENDS HeaderUniverse, Json, CSV, SequencesExt
 
 Keys == {"200", "201", "302", "404", "2XX", "3XX", "4XX", "default"}
 Statuses == {0, 100, 200, 201, 204, 300, 301, 302, 303, 304, 307, 308, 404, 500, 600}
+(* the thorough tier (Gen_C08_thorough.cfg overrides Keys / Statuses): every class pattern, the bounds of every class *)
+KeysThorough == {"200", "201", "302", "404", "500", "1XX", "2XX", "3XX", "4XX", "5XX", "default"}
+StatusesThorough == {0, 99, 100, 199, 200, 201, 204, 299, 300, 301, 302, 303, 304, 307, 308, 400, 404, 499, 500, 501, 599, 600}
 KeySets == {ks \in SUBSET Keys : Cardinality(ks) >= 1 /\ Cardinality(ks) <= 3}
 
 S(cs) == Str(cs)
@@ -11,7 +14,7 @@ JsonBodies == { O(<<"q">>, <<Num(4)>>), O(<<"q">>, <<S(<<"x">>)>>), O(<<"q", "w"
                 O(<<"q", "r">>, <<Num(4), S(<<"s">>)>>), O(<<>>, <<>>), Arr(<<Num(4)>>) }
 TextBodies == { S(<<"a">>), S(<<"a", "b", "c">>) }
 (* bytes that are not the encoding of any JSON value *)
-RawBodies == { [t |-> "raw", s |-> "{\"q\":"] }
+RawBodies == { [t |-> "raw", s |-> "{\"q\":"], [t |-> "raw", s |-> ""] }       \* truncated; no bytes at all
 
 CTs == { [absent |-> TRUE], Json, MT("application", "json", "charset=utf-8"), MT("text", "plain", ""),
          MT("application", "problem+json", "") }      \* a structured-suffix type is a media type of its own
@@ -22,16 +25,22 @@ Init ==
         /\ bk \in ks                                   \* the body carries the marker of a declared entry
         /\ case = [part |-> "pick", keys |-> SetToSortSeq(ks, LAMBDA a, b : TRUE), status |-> st, method |-> m,
                    includeStatus |-> inc, bodyKey |-> bk]
+   \* options and header rules crossed with the selection: see ResponseCheck!PickAccepts
+   \/ \E ks \in KeySets, st \in {200, 204, 304, 404, 500, 600}, m \in {"GET", "HEAD"}, inc \in BOOLEAN, bk \in Keys, pv \in {"xb", "reqhdr"} :
+        /\ bk \in ks /\ Cardinality(ks) <= 2
+        /\ case = [part |-> "pick", keys |-> SetToSortSeq(ks, LAMBDA a, b : TRUE), status |-> st, method |-> m,
+                   includeStatus |-> inc, bodyKey |-> bk, pv |-> pv]
    \/ \E hd \in {"objExp", "objNoExp"}, hv \in {"absent", "5", "abc", "1,2", "a=1,b=2", "a=1,b=9", "b=2", "a,1,b,2", "a,1,b,9", "b,2"},
          mu \in BOOLEAN, ct \in {Json} :
         case = [part |-> "def", hd |-> hd, hv |-> hv, decl |-> "json", ct |-> ct, req |-> "qw", ctText |-> Render(ct),
                 body |-> O(<<"q", "w">>, <<Num(4), S(<<"s">>)>>), excludeBody |-> FALSE, excludeWO |-> TRUE, multi |-> mu]
    \/ \E hd \in {"none", "intReq", "intOpt", "arrOpt", "arrMax1", "contentReq", "contentOpt"}, hv \in {"absent", "5", "abc", "1,2"},
-         d \in {"none", "json", "jsonNoSchema", "text", "wild", "jsonAndText"}, ct \in CTs,
+         d \in {"none", "json", "jsonNoSchema", "text", "wild", "jsonAndText", "any"}, ct \in CTs,
          b \in JsonBodies \cup TextBodies \cup RawBodies, xb \in BOOLEAN, xw \in BOOLEAN, mu \in BOOLEAN, rq \in {"qw", "qrw"} :
         /\ (hd = "none" => hv = "absent")
         /\ (b \in TextBodies <=> ("ty" \in DOMAIN ct /\ ct.ty = "text"))   \* the body is written in the content type it claims
         /\ ("absent" \in DOMAIN ct => b = O(<<"q">>, <<Num(4)>>))
+        /\ (d = "any" => (hd = "none" /\ "ty" \in DOMAIN ct))   \* */* declared; without a Content-Type there is no decoder to pick: left open
         /\ (rq = "qrw" => (hd = "none" /\ d \in {"json", "wild"}))        \* the second schema only where the body schema is what decides
         /\ (b \in RawBodies => (hd = "none" /\ "ty" \in DOMAIN ct /\ ct.ty = "application"))
         /\ case = [part |-> "def", hd |-> hd, hv |-> hv, decl |-> d, ct |-> ct, req |-> rq,
@@ -42,6 +51,30 @@ Init ==
         case = [part |-> "def", hd |-> "none", hv |-> "absent", decl |-> "json", ct |-> Json, req |-> rq, ctText |-> Render(Json),
                 wrap |-> w, body |-> (CASE w \in {"items", "itemsAnyOf"} -> Arr(<<b>>) [] w = "prop" -> O(<<"in">>, <<b>>) [] OTHER -> b),
                 excludeBody |-> FALSE, excludeWO |-> xw, multi |-> mu]
+   \* part "hdr": declared headers with schemas of every kind x texts (empty, partly empty, ill-typed, conforming), see HeaderUniverse
+   \/ \E h \in OneHeader, mu \in BOOLEAN, bd \in {<<"none", FALSE>>, <<"json", FALSE>>, <<"json", TRUE>>} :
+        /\ OneHeaderOK(h)
+        /\ case = [part |-> "hdr", hdrs |-> <<h>>, extra |-> FALSE, decl |-> bd[1], ct |-> Json, req |-> "qw", ctText |-> Render(Json),
+                   body |-> O(<<"q">>, <<Num(4)>>), excludeBody |-> bd[2], excludeWO |-> FALSE, multi |-> mu]
+   \* the same definitions reached through $ref (components.responses -> components.headers -> components.schemas), and a
+   \* validation input without Options (nil: every option off)
+   \/ \E h \in OneHeader, vr \in {"ref", "nilopts"} :
+        /\ OneHeaderOK(h)
+        /\ case = [part |-> "hdr", hdrs |-> <<h>>, extra |-> FALSE, decl |-> "json", ct |-> Json, req |-> "qw", ctText |-> Render(Json),
+                   body |-> O(<<"q">>, <<Num(4)>>), excludeBody |-> FALSE, excludeWO |-> FALSE, multi |-> FALSE, variant |-> vr]
+   \/ \E b \in JsonBodies, rq \in {"qw", "qrw"}, vr \in {"ref", "nilopts"} :
+        case = [part |-> "def", hd |-> "none", hv |-> "absent", decl |-> "json", ct |-> Json, req |-> rq, ctText |-> Render(Json),
+                body |-> b, excludeBody |-> FALSE, excludeWO |-> FALSE, multi |-> FALSE, variant |-> vr]
+   \/ \E h \in TwoLines, mu \in BOOLEAN :
+        case = [part |-> "hdr", hdrs |-> <<h>>, extra |-> FALSE, decl |-> "none", ct |-> Json, req |-> "qw", ctText |-> Render(Json),
+                body |-> O(<<"q">>, <<Num(4)>>), excludeBody |-> FALSE, excludeWO |-> FALSE, multi |-> mu]
+   \/ \E h \in CtHeaders, d \in {"none", "json"} :
+        case = [part |-> "hdr", hdrs |-> <<h>>, extra |-> FALSE, decl |-> d, ct |-> Json, req |-> "qw", ctText |-> Render(Json),
+                body |-> O(<<"q">>, <<Num(4)>>), excludeBody |-> FALSE, excludeWO |-> FALSE, multi |-> FALSE]
+   \/ \E hh \in TwoHeaders, mu \in BOOLEAN, xt \in BOOLEAN :
+        /\ TwoOK(hh[1]) /\ TwoOK(hh[2])
+        /\ case = [part |-> "hdr", hdrs |-> hh, extra |-> xt, decl |-> "none", ct |-> Json, req |-> "qw", ctText |-> Render(Json),
+                   body |-> O(<<"q">>, <<Num(4)>>), excludeBody |-> FALSE, excludeWO |-> FALSE, multi |-> mu]
 Next == UNCHANGED case
 Spec == Init /\ [][Next]_case
 Emit == CSVWrite("%1$s", <<ToJson(case)>>, "cases.ndjson")
